@@ -248,32 +248,31 @@ fn tmpfile() -> PathBuf {
     })
 }
 
-/// Run one search. `stop`: scripted sink stop.
-pub fn run_leg<M: Matcher>(
+/// Run one search with an arbitrary sink. Returns the search result and the
+/// number of read calls the scripted reader served.
+pub fn search_leg<M: Matcher, S: grep_searcher::Sink>(
     matcher: M,
     cfg: &SearchCfg,
     leg: &Leg,
     input: &[u8],
-    stop: Option<(usize, Stop)>,
-) -> Outcome {
-    let mut sink = LogSink::new();
-    sink.stop_at = stop;
+    sink: S,
+) -> (Result<(), S::Error>, usize) {
     let mut b = cfg.builder();
     let mut read_calls = 0;
     let result = match leg {
-        Leg::Slice => b.build().search_slice(matcher, input, &mut sink),
+        Leg::Slice => b.build().search_slice(matcher, input, sink),
         Leg::Reader { cap, script, tail, cycle } => {
             b.verif_buffer_capacity(*cap);
             let mut rdr =
                 ScriptReader::new(input, script.clone(), *tail, *cycle);
-            let r = b.build().search_reader(matcher, &mut rdr, &mut sink);
+            let r = b.build().search_reader(matcher, &mut rdr, sink);
             read_calls = rdr.calls;
             r
         }
         Leg::HeapLimit { limit, tail } => {
             b.heap_limit(Some(*limit));
             let mut rdr = ScriptReader::chunks(input, *tail);
-            let r = b.build().search_reader(matcher, &mut rdr, &mut sink);
+            let r = b.build().search_reader(matcher, &mut rdr, sink);
             read_calls = rdr.calls;
             r
         }
@@ -288,9 +287,23 @@ pub fn run_leg<M: Matcher>(
                 // modified while mapped.
                 b.memory_map(unsafe { MmapChoice::auto() });
             }
-            b.build().search_path(matcher, &path, &mut sink)
+            b.build().search_path(matcher, &path, sink)
         }
     };
+    (result, read_calls)
+}
+
+/// Run one search with the recording sink. `stop`: scripted sink stop.
+pub fn run_leg<M: Matcher>(
+    matcher: M,
+    cfg: &SearchCfg,
+    leg: &Leg,
+    input: &[u8],
+    stop: Option<(usize, Stop)>,
+) -> Outcome {
+    let mut sink = LogSink::new();
+    sink.stop_at = stop;
+    let (result, read_calls) = search_leg(matcher, cfg, leg, input, &mut sink);
     Outcome {
         calls_after_stop: sink.calls_after_stop,
         log: sink.log,
